@@ -62,10 +62,69 @@ def _degree(m: M.MP, name) -> int:
     return max([dict(mono).get(name, 0) for mono in m.terms] + [0])
 
 
+def body_special(ctx: H.BaseCtx):
+    """Native only: coefficients whose ratio overflows, infinities and nan.  Division must still *terminate* (S8 guard: 60
+    iterations / 4 s); where quotient and remainder come back finite the identity must hold at sample points."""
+    import numpoly
+
+    if ctx.symbolic:
+        return
+    _install_loop_hook()
+    q0, q1 = numpoly.variable(2)
+    inf, nan = float("inf"), float("nan")
+    pairs = [
+        (1e300 * q0 ** 2, 1e-300 * q0), (1e200 * q0 ** 2 + q0, 1e-200 * q0 + 1), (inf * q0 ** 2, q0), (nan * q0, q0), (q0 ** 2, inf * q0),
+        (numpoly.polynomial([1e300 * q0 ** 2, q0 ** 2 - 1]), numpoly.polynomial([1e-300 * q0, q0 + 1])), (q0 * q1 + 1e308, 1e-308 * q1 + q0), (q0 ** 3 + nan, q0 - 1), (1e308 * q0 ** 2 + 1e308 * q0, 0.5 * q0),
+    ]
+    empties = [(numpoly.polynomial(numpy.zeros((0,))), q0), (numpoly.polynomial(numpy.zeros((2, 0))) * q0, q0 + 1), (q0, numpoly.polynomial(numpy.ones((0,)))), (numpoly.polynomial(numpy.zeros((0, 2))), numpoly.polynomial([q0, 2.0]))]
+    if ctx.case["k"] >= len(pairs):
+        # arrays without elements: (q, r) of the broadcast (empty) shape, for every division function
+        num, den = empties[(ctx.case["k"] - len(pairs)) % len(empties)]
+        _shp = lambda x: tuple(getattr(x, "shape", ()))
+        want = numpy.broadcast_shapes(_shp(num), _shp(den))
+        for fname in ("poly_divmod", "poly_divide", "poly_remainder"):
+            try:
+                res = getattr(numpoly, fname)(num, den)
+            except Exception as e:
+                ctx.unexpected_exception(e, "%s on arrays of shapes %s, %s" % (fname, _shp(num), _shp(den)))
+                continue
+            for part in res if isinstance(res, tuple) else (res,):
+                if tuple(part.shape) != tuple(want):
+                    ctx.fail("shape", "%s on arrays of shapes %s, %s returns shape %s" % (fname, _shp(num), _shp(den), part.shape))
+        return
+    num, den = pairs[ctx.case["k"] % len(pairs)]
+    _STATE["count"] = 0
+    _STATE["cap"] = 60  # (these quotients have at most 3 terms per element)
+    _STATE["t_end"] = time.time() + 4.0
+    try:
+        with numpy.errstate(all="ignore"):
+            q, r = numpoly.poly_divmod(num, den)
+    except IterationBound as e:
+        ctx.fail("nontermination", "poly_divmod(%s, %s): %s" % (num, den, e))
+        return
+    except Exception as e:
+        ctx.unexpected_exception(e, "poly_divmod (special values)")
+        return
+    finally:
+        _STATE["cap"] = 10**9
+        _STATE["t_end"] = None
+    with numpy.errstate(all="ignore"):
+        fin = all(numpy.all(numpy.isfinite(c)) for p_ in (q, r, numpoly.aspolynomial(num), numpoly.aspolynomial(den)) for c in p_.coefficients)
+        if fin:
+            for x, y in ((1.0, 1.0), (-1.0, 0.5), (0.5, -2.0)):
+                lhs = numpy.asarray(numpoly.aspolynomial(num)(q0=x, q1=y), dtype=float)
+                rhs = numpy.asarray((q * den + r)(q0=x, q1=y), dtype=float)
+                if numpy.all(numpy.isfinite(lhs)) and numpy.all(numpy.isfinite(rhs)) and not numpy.allclose(lhs, rhs, rtol=1e-6, atol=0):
+                    ctx.fail("value", "poly_divmod(%s, %s) = (%s, %s): q*divisor + r differs from the dividend at (%s, %s)" % (num, den, q, r, x, y))
+                    break
+
+
 def body(ctx: H.BaseCtx):
     import numpoly
 
     case = ctx.case
+    if case.get("op") == "special":
+        return body_special(ctx)
     _install_loop_hook()
     dspec = case["divisor"]
     divisor = ctx.build(dspec)
@@ -186,7 +245,7 @@ def body_for(case):
 
 
 def run_case(case: Dict) -> Dict:
-    specs = [case["divisor"], case.get("dividend"), case.get("cofactor"), case.get("extra")]
+    specs = [case.get("divisor"), case.get("dividend"), case.get("cofactor"), case.get("extra")]
     rep = H.simple_run_case(case, body, specs)
     return rep
 
@@ -291,6 +350,10 @@ def gen_cases(tier: str, seed: int) -> List[Dict]:
                 continue
             shape = rng.choice([(), (), (2,)])
             add("rnd", names, spec("d", names, dv, shape, 3), dividend=spec("n", names, de, rng.choice([(), shape]), 3))
+    # overflowing / non-finite coefficients (native only): termination, see body_special
+    for k in range(13):
+        n += 1
+        cases.append({"id": "%s-%03d-special" % (PROP, n), "op": "special", "k": k, "names": ["q0", "q1"], "limits": lim})
     return cases
 
 
